@@ -56,3 +56,9 @@ Definition ranks_valid_b (a : Q) (B : Z) : bool :=
 Definition check_unit_interval (a : Q) (B : Z) (pred : Q) (errs : list Q) (lo hi : Z) : bool :=
   let s := qsort errs in
   round_agrees (pred - quantile_lin s (upper_q a B)) lo && round_agrees (pred - quantile_lin s (lower_q a B)) hi.
+
+(* the same comparison for several levels at once (the draws are sorted once) *)
+Definition check_unit_intervals (B : Z) (pred : Q) (errs : list Q) (l : list (Q * Z * Z)) : bool :=
+  let s := qsort errs in
+  forallb (fun '(a, lo, hi) =>
+    round_agrees (pred - quantile_lin s (upper_q a B)) lo && round_agrees (pred - quantile_lin s (lower_q a B)) hi) l.
